@@ -15,7 +15,7 @@ import (
 // Stream walker.print (WALKER_STREAM=print). PROTOCOL-walker.md §8.
 //
 //   op      print HEX(filename) HEX(text) SEXP
-//   result  tree=<0|1> walk=<ok:DUMP|err:POS|perr|panic> msg=<DUMP|?> same=<0|1>
+//   result  tree=<0|1> walk=<ok:DUMP|err:POS|perr|panic> msg=<DUMP|?> same=<0|1> text=<0|1>
 //
 // SEXP is the abstract file (j5sgen AST, `(*File).Sexp()` with the package declaration made
 // explicit), text its rendering by j5sgen.PrintFile in the plain style (style 0). The Go side
@@ -23,6 +23,9 @@ import (
 // (the op is consistent), `walk` = the real walk of the text, `msg` = the same dump, `same` = the
 // walk succeeded. The Lean side computes `tree` by comparing the model's parse of the text with
 // `toBcl ast`, `walk` by walking `toBcl ast` in the model, `msg` = dump of `toMsg ast`.
+// `text` = the shipped text IS the printer's text (Go: the same comparison as `tree`; Lean: the bytes of the
+// model's printer `printJ5s ast` equal the shipped text), so equal lines on a consistent op say that the
+// model's text equals the Go printer's text byte for byte.
 
 const printStream = "print"
 
@@ -110,9 +113,9 @@ func (im *impl) execPrint(h *vh.H, op string) string {
 	walk := strings.Replace(r.Line, " ", ":", 1)
 	if !strings.HasPrefix(r.Line, "ok ") {
 		h.Fail("print-rejected", op, "the real parser does not accept the printed file: "+r.Line+" "+r.Debug)
-		return "tree=" + tree + " walk=" + walk + " msg=? same=0"
+		return "tree=" + tree + " walk=" + walk + " msg=? same=0 text=" + tree
 	}
-	return "tree=" + tree + " walk=" + walk + " msg=" + strings.TrimPrefix(r.Line, "ok ") + " same=1"
+	return "tree=" + tree + " walk=" + walk + " msg=" + strings.TrimPrefix(r.Line, "ok ") + " same=1 text=" + tree
 }
 
 // ---------------------------------------------------------------------------------------------
